@@ -122,6 +122,13 @@ func plasmaHistory(rng *rand.Rand, out *Out) {
 			kind = 0
 		}
 		b, ctag := candidateTemplate(rng, u, users, kind)
+		if sc == nil && rng.Intn(4) == 0 {
+			// a receive block of the user (base cost 21000 whatever it receives), if something is waiting for it
+			if hs, err := nd.Ch.GetFrontierMomentumStore().GetAccountMailbox(u.Address).GetUnreceivedAccountBlockHashes(8); err == nil && len(hs) > 0 {
+				b = &nom.AccountBlock{BlockType: nom.BlockTypeUserReceive, Address: u.Address, FromBlockHash: hs[rng.Intn(len(hs))], Amount: big.NewInt(0)}
+				ctag = "receive"
+			}
+		}
 		if sc != nil && sc.ack != 0 {
 			if m, err := nd.Ch.GetFrontierMomentumStore().GetMomentumByHeight(sc.ack); err == nil && m != nil {
 				b.MomentumAcknowledged = m.Identifier()
@@ -157,7 +164,10 @@ func plasmaHistory(rng *rand.Rand, out *Out) {
 			if toContract {
 				btag = "contract-call"
 			}
-			out.Case("base_plasma", Tup(false, toContract, st.found, Big(key), I64(int64(len(b.Data)))), I64(want), btag)
+			if b.IsReceiveBlock() {
+				btag = "receive"
+			}
+			out.Case("base_plasma", Tup(b.IsReceiveBlock(), toContract, st.found, Big(key), I64(int64(len(b.Data)))), I64(want), btag)
 			out.Oracle((baseErr == nil) == baseOk && (baseErr != nil || implBase == base), "base-cost-by-type-data-method",
 				M{"to": b.ToAddress.String(), "data_len": len(b.Data), "harness_base": U64(base), "impl_base": I64(want)})
 		}
